@@ -5,7 +5,7 @@
    overlap flag is raised exactly when a used bit is claimed again (C02_overlap_flag).
    The composite statement (layout of whole parameter trees) is correspondence-only. *)
 From Coq Require Import ZArith List Bool.
-From OV Require Import Base.Bytes Base.Wire Generated Model.Str Model.Codec Proofs.BytesProofs Proofs.AtomicProofs Proofs.CodecProps Proofs.FlatProofs Proofs.TreeProofs Proofs.TreeWireProofs Proofs.FieldProofs Proofs.DynFieldProofs Proofs.EopFieldProofs Proofs.PadProofs Proofs.BStructProofs Proofs.BitFieldProofs.
+From OV Require Import Base.Bytes Base.Wire Generated Model.Str Model.Codec Proofs.BytesProofs Proofs.AtomicProofs Proofs.CodecProps Proofs.FlatProofs Proofs.TreeProofs Proofs.TreeWireProofs Proofs.FieldProofs Proofs.DynFieldProofs Proofs.EopFieldProofs Proofs.PadProofs Proofs.BStructProofs Proofs.MuxProofs Proofs.BitFieldProofs.
 Import ListNotations.
 Open Scope Z_scope.
 
@@ -139,6 +139,17 @@ Theorem C02_byte_size_structure_bytes : forall nm rs b,
   (blen (rbytes rs) <= b -> blen (r_w (bstruct_rm nm rs b)) = b).
 Proof. intros nm rs b. split; [reflexivity | apply bstruct_length]. Qed.
 Print Assumptions C02_byte_size_structure_bytes.
+
+(* ---------- multiplexers (Proofs/MuxProofs.v) ---------- *)
+(* a multiplexer contributes the lower limit of the selected case as switch key -- zero-padded big-endian bytes,
+   byte-swapped for a little-endian key -- followed by the bytes of the case's members (the premises under which these
+   are the bytes the encoder writes are those of C01_multiplexer_member, whose second component says so) *)
+Theorem C02_multiplexer_bytes : forall nm kbl hl cases dflt c rs,
+  r_w (mux_rm nm kbl hl cases dflt c rs) =
+  (let n := Z.to_nat (nbytes_of kbl 0) in if negb hl then rev (to_be n (mc_lo c)) else to_be n (mc_lo c)) ++ rbytes rs.
+Proof. intros nm kbl hl cases dflt c rs. cbn [mux_rm r_w]. unfold key_bytes, wire_bytes, key_desc, fbytes. cbn [f_bl f_hl f_bt is_numeric].
+       rewrite Bool.andb_true_r. reflexivity. Qed.
+Print Assumptions C02_multiplexer_bytes.
 
 (* ---------- bit fields (Proofs/BitFieldProofs.v) ---------- *)
 (* the byte of a structure of bit fields is the OR -- with disjoint ranges: the sum -- of the values shifted to
